@@ -30,6 +30,11 @@ inductive Err where
   | firstUseNotCast  -- AssertionError  : first use (use-list order) is not an unrealized_conversion_cast
   | badSolution      -- KeyError        : the solver returned fewer offsets than buffers
   | notClosed        -- (model only) the alias scan did not reach a fixed point: input not in def-before-use order
+  | solverFull       -- RuntimeError    : the first-fit solver (harness stub of `minimalloc`) exceeds the capacity
+  | solverFuel       -- (model only) the first-fit search ran out of fuel (never happens: fuel = #placed + 1)
+  | misalignedStart  -- RuntimeError    : (only with the proposed fix FC11a) memory.start is not a multiple of an alignment
+  | badMode          -- RuntimeError    : "unsupported allocation strategy"
+  | noAlignAttr      -- AssertionError  : DynamicAllocs on an "L1" alloc without alignment attribute
 deriving DecidableEq, Repr, Inhabited
 
 def prodL : List Nat → Nat
@@ -420,10 +425,143 @@ def contractOk (bufs : List Buf) (cap : Nat) (offs : List Nat) : Bool :=
     decide (p.2 % p.1.align = 0) && decide (p.2 + p.1.size ≤ cap) &&
     z.all fun q => decide (p.1 = q.1) || !overlapLife p.1 q.1 || disjointRange p.2 p.1.size q.2 q.1.size
 
+/-! ### A concrete solver: first fit (the `minimalloc` stand-in of harness/compat.py), and the whole pass with it -/
+
+/-- `off = (off + a - 1) // a * a` -/
+def alignUp (off a : Nat) : Nat := (off + a - 1) / a * a
+
+/-- an already placed buffer `p` forbids offset `off` for `b`: lifespans intersect and ranges intersect -/
+def clashWith (b : Buf) (off : Nat) (p : Buf × Nat) : Bool :=
+  overlapLife p.1 b && !disjointRange off b.size p.2 p.1.size
+
+/-- the `while True` loop of the stub: round up, look for the first clashing placed buffer, jump behind it -/
+def findSlot (b : Buf) (a : Nat) (placed : List (Buf × Nat)) : Nat → Nat → Option Nat
+  | 0, _ => none
+  | fuel + 1, off =>
+    let off' := alignUp off a
+    match placed.find? (clashWith b off') with
+    | none => some off'
+    | some p => findSlot b a placed fuel (p.2 + p.1.size)
+
+/-- place the buffers one after the other in the given order; `placed` in placement order -/
+def firstFitAux (cap : Nat) : List Buf → List (Buf × Nat) → Except Err (List Nat)
+  | [], _ => .ok []
+  | b :: rest, placed =>
+    match findSlot b (max 1 b.align) placed (placed.length + 1) 0 with
+    | none => .error .solverFuel
+    | some off =>
+      if off + b.size > cap then .error .solverFull
+      else (firstFitAux cap rest (placed ++ [(b, off)])).map (off :: ·)
+
+/-- `Problem(bufs, cap).solve()` of the stand-in solver -/
+def firstFit (bufs : List Buf) (cap : Nat) : Except Err (List Nat) := firstFitAux cap bufs []
+
+/-- the answers of the first-fit solver for every memory (`[]` where it fails or the memory is unknown) -/
+def ffSol (mems : List Mem) (bs : List Buf) : Nat → List Nat := fun m =>
+  match mems[m]? with
+  | none => []
+  | some mem => match firstFit (subset bs m) mem.cap with
+    | .ok offs => offs
+    | .error _ => []
+
+/-- first error of the solver over the memories `0 … n-1` -/
+def ffErrors (mems : List Mem) (bs : List Buf) : Nat → Except Err Unit
+  | 0 => .ok ()
+  | n + 1 =>
+    match ffErrors mems bs n with
+    | .error e => .error e
+    | .ok _ =>
+      match mems[n]? with
+      | none => .ok ()
+      | some mem => match firstFit (subset bs n) mem.cap with
+        | .ok _ => .ok ()
+        | .error e => .error e
+
+/-- `MiniMallocate` with the first-fit solver plugged in: no parameter, no hypothesis left -/
+def miniMallocateFF (vm : ViewMode) (mems : List Mem) (p : Prog) : Except Err MiniResult :=
+  match lifetimes vm p with
+  | .error e => .error e
+  | .ok bs =>
+    match checkMems mems bs with
+    | .error e => .error e
+    | .ok _ =>
+      match ffErrors mems bs mems.length with
+      | .error e => .error e
+      | .ok _ => miniMallocate vm mems (ffSol mems bs) p
+
+/-- executable form of `WellOrd` (SSA order of the flattened operations) -/
+def wellOrdB : List (Node × Nat) → Bool
+  | [] => true
+  | (n, _) :: rest =>
+    n.res.all (fun w => !n.ops.contains w) &&
+    rest.all (fun m => m.1.res.all (fun w => !n.ops.contains w)) && wellOrdB rest
+
+/-! ### Proposed fix FC11a for finding C11-N1: refuse a memory whose start is not a multiple of an alignment -/
+
+/-- `if memory.start % buffer.alignment != 0: raise RuntimeError` for every buffer (alignment 0 is never a divisor) -/
+def startAligned (mems : List Mem) (bs : List Buf) : Bool :=
+  bs.all fun b => match mems[b.mem]? with
+    | none => true
+    | some mem => b.align == 0 || mem.start % b.align == 0
+
+/-- `MiniMallocate` with FC11a -/
+def miniMallocateChecked (vm : ViewMode) (mems : List Mem) (sol : Nat → List Nat) (p : Prog) :
+    Except Err MiniResult :=
+  match miniMallocate vm mems sol p with
+  | .error e => .error e
+  | .ok r => if startAligned mems r.bufs then .ok r else .error .misalignedStart
+
+/-- `MiniMallocate` with FC11a and the first-fit solver: the start check precedes the solver call -/
+def miniMallocateFFChecked (vm : ViewMode) (mems : List Mem) (p : Prog) : Except Err MiniResult :=
+  match lifetimes vm p with
+  | .error e => .error e
+  | .ok bs =>
+    match checkMems mems bs with
+    | .error e => .error e
+    | .ok _ => if startAligned mems bs then miniMallocateFF vm mems p else .error .misalignedStart
+
 /-! ## 4. Mode `auto`, descriptor -/
 
 /-- `allocs_are_static`: every `snax.alloc` in the module (nested ones included) has a constant size -/
 def allocsAreStatic (sizes : List (Option Nat)) : Bool := sizes.all (·.isSome)
+
+/-- `SnaxAllocatePass.mode` -/
+inductive Mode where
+  | dynamic | static | minimalloc | auto
+deriving DecidableEq, Repr, Inhabited
+
+def modeOfString (s : String) : Except Err Mode :=
+  if s = "dynamic" then .ok .dynamic else if s = "static" then .ok .static
+  else if s = "minimalloc" then .ok .minimalloc else if s = "auto" then .ok .auto else .error .badMode
+
+/-- the rewrite pattern `SnaxAllocatePass.apply` runs -/
+inductive Pattern where
+  | dynamicAllocs | staticAllocs | miniMallocate
+deriving DecidableEq, Repr, Inhabited
+
+/-- `apply`: `sizes` are the size operands of all `snax.alloc` of the module (`none` = not a constant) -/
+def selectPattern (m : Mode) (sizes : List (Option Nat)) : Pattern :=
+  match m with
+  | .dynamic => .dynamicAllocs
+  | .static => .staticAllocs
+  | .minimalloc => .miniMallocate
+  | .auto => if allocsAreStatic sizes then .miniMallocate else .dynamicAllocs
+
+/-- what `DynamicAllocs` does with one alloc -/
+inductive DynOut where
+  | left                 -- memory space is not "L1": untouched
+  | call (align : Nat)   -- `func.call @snax_alloc_l1(size operand, alignment)`, descriptor from the two returned pointers
+deriving DecidableEq, Repr, Inhabited
+
+/-- `DynamicAllocs` over the allocs in walk order: `(memory space is "L1", alignment attribute)` -/
+def dynamicAllocs : List (Bool × Option Nat) → Except Err (List DynOut)
+  | [] => .ok []
+  | (false, _) :: rest => (dynamicAllocs rest).map (.left :: ·)
+  | (true, none) :: _ => .error .noAlignAttr
+  | (true, some a) :: rest => (dynamicAllocs rest).map (.call a :: ·)
+
+/-- `MiniMallocate` returns without doing anything unless the function body is a single block -/
+def miniApplies (nBlocks : Nat) : Bool := nBlocks == 1
 
 /-- `create_memref_struct`: (pointer, aligned pointer, offset, sizes) -/
 def descriptor (addr : Nat) (shape : List Nat) : Nat × Nat × Nat × List Nat := (addr, addr, 0, shape)
@@ -479,5 +617,20 @@ def SolverContract (bufs : List Buf) (cap : Nat) (offs : List Nat) : Prop :=
   (∀ p ∈ bufs.zip offs, ∀ q ∈ bufs.zip offs, p.1 ≠ q.1 →
     max p.1.start q.1.start < min p.1.stop q.1.stop →
     p.2 + p.1.size ≤ q.2 ∨ q.2 + q.1.size ≤ p.2)
+
+/-- the part of the solver contract that memory safety needs (no alignment): one offset per buffer,
+`offset + size ≤ cap`, different buffers with intersecting half-open lifespans get disjoint ranges -/
+def SolverSafe (bufs : List Buf) (cap : Nat) (offs : List Nat) : Prop :=
+  offs.length = bufs.length ∧
+  (∀ p ∈ bufs.zip offs, p.2 + p.1.size ≤ cap) ∧
+  (∀ p ∈ bufs.zip offs, ∀ q ∈ bufs.zip offs, p.1 ≠ q.1 →
+    max p.1.start q.1.start < min p.1.stop q.1.stop →
+    p.2 + p.1.size ≤ q.2 ∨ q.2 + q.1.size ≤ p.2)
+
+/-- SSA order of the flattened operations: no operation uses a result of itself or of a later operation
+(what xDSL's verifier guarantees for single-block regions listed in pre-order) -/
+def WellOrd : List (Node × Nat) → Prop
+  | [] => True
+  | (n, _) :: rest => (∀ w ∈ n.res, w ∉ n.ops) ∧ (∀ m ∈ rest, ∀ w ∈ m.1.res, w ∉ n.ops) ∧ WellOrd rest
 
 end SnaxVerif.Alloc
